@@ -190,6 +190,43 @@ CHECKS = {
              'fixes/F23 (both reported on the pinned tree); hosted methods assumed atomic; OS schedule sampled; exception '
              'messages compared against the local call only.',
         ref='§5 C14', engine='E4-manager-processes+lean'),
+    'C02': dict(
+        technique='Lean 4 proof (inductive invariants of labelled-transition-system models of the servlet nodes: worker pool, ensemble '
+                  'catalog, switch; trace-contract refinement lifted to all servlet trees by structural induction; kernel-checked '
+                  'counterexample for reused uids) + schedule-controlled differential / trace-replay correspondence against the real '
+                  'Server over generated servlet trees',
+        text='Layer 1 (servlet tree) of C02. C02_tree: for EVERY servlet tree t (any depth / mix of workers, sequences, ensembles with '
+             'or without fail_fast, switches; any worker functions, failure plans, batch sizes, worker counts) and every behaviour of '
+             'the concrete tree (every node operational, every interleaving; members are arbitrary environments constrained only by '
+             'being behaviours of the member subtrees) with pairwise distinct input uids, each message (u, y) put on the output queue '
+             'answers an earlier input (u, x) with y in outs(t)(x) - computed from that request\'s own input - and no uid is answered '
+             'twice; C02_tree_exactly_one: in every behaviour that has come to rest every request has exactly one answer. '
+             'C02_node_worker / _ensemble / _switch: the node contracts (at most once per received message, exactly once at '
+             'rest) for every action list; C02_seq(_complete) composes them; C02_uid_distinct_needed: a kernel-checked run in which a '
+             'REUSED uid makes a fail-fast ensemble answer request 2 with member B\'s result for request 1 (F2\'s mechanism). Tie on '
+             'every run: the real Server (thread servlets) runs generated trees with 2-6 concurrent call/stream callers under the '
+             'deterministic scheduler and an adversarial id allocator; every outcome is checked against `outs` by the compiled Lean '
+             'driver, the queue/call events of every node are replayed through its operational model, monitors evaluate the property '
+             'on each run; a small sample with real worker processes is compared with `outs` too.',
+        note=E1 + 'that the tree does come to rest (liveness) is not proved, only monitored; the ledger layer (uid minting, '
+             'capacity, gather thread, timeouts) is the Ledger model of C06/C07; process servlets: OS schedule only sampled.',
+        ref='§5 C02', engine='E1-detsched+lean'),
+    'C04': dict(
+        technique='Lean 4 proof (invariants of the servlet-node transition systems incl. call-argument and batch logs; membership '
+                  'characterisation of the ensemble outcome relation) + schedule-controlled differential / trace-replay correspondence '
+                  'with generated failure plans over all sites',
+        text='C04_isolated_tree (every tree, every behaviour of the concrete tree: the outcome of a request is an allowed outcome of its own '
+             'input alone, and THE outcome when the denotation is deterministic for it), C04_deterministic_tree / C04_innocent_tree, '
+             'C04_isolated(+_worker), C04_batch_exact, C04_batch_members_only (a failed batched call fails exactly the members of its '
+             'batch; a request\'s outcome depends on its own input and the batch it shared only), C04_shortcircuit (denotation, all '
+             'trees) + _worker/_switch/_ensemble (call / switch / members never see an exception value), C04_ensemble_rules(_failfast) '
+             '(exact outcome sets), C04_original_type (the value delivered is the one produced at the failure site; class/args across '
+             'RemoteException are C15\'s theorem). Tie and monitors as C02 with failure plans per site (preprocess, call, whole batch, '
+             'which ensemble members, stage index): exception class/args/failure-site traceback frame, innocent request failing, call '
+             'on an exception value, failed batch vs. the requests that shared it.',
+        note=E1 + 'thread servlets only under the scheduler: the "traceback as text after a process boundary" clause is C15\'s '
+             '(pickling model) plus a small real-process sample on every run.',
+        ref='§5 C04', engine='E1-detsched+lean'),
 }
 
 CHECKS['C06'] = dict(
